@@ -61,6 +61,12 @@ def ident_lists(n):
 _GREEK = ["alpha", "beta", "omega", "psi", "theta", "phi", "dot{\\psi}", "ddot{x}"]
 
 
+# names that exist in sympy's own namespace as CONSTANTS / singletons (not functions the generated models call): a Symbol
+# spelled like one of them is an ordinary symbol for FormaK's Python back-end (probed: all work), unless some code path
+# sends it through a string (str -> parse_expr rebinding E to 2.718..., pi to 3.14..., I to the imaginary unit)
+SYMPY_CONSTANT_NAMES = ["E", "pi", "I", "S", "N", "Q", "O", "oo", "nan", "zoo", "gamma", "beta", "zeta"]
+
+
 def freeform():
     """identifier names plus LaTeX-like names of the kind the strapdown model uses (Python-only properties)"""
     latex = st.one_of(
@@ -69,7 +75,7 @@ def freeform():
                   st.sampled_from(["A", "B", "imu", "w"]), st.integers(0, 3)),
         st.builds(lambda g: f"\\{g}", st.sampled_from(_GREEK)),
     )
-    return st.one_of(ident(), ident(), latex)
+    return st.one_of(ident(), ident(), latex, st.sampled_from(SYMPY_CONSTANT_NAMES))
 
 
 def freeform_lists(n):
